@@ -36,11 +36,11 @@ type Case struct {
 
 var checker = &vk.Checker[Case]{
 	ID: "C15",
-	Rule: "histories on one to three TailBitmaps that are alive at the same time (after every step the untouched ones are checked too), each from NewTailBitmap(o), o in {0,64,128,64*r up to 2^40, 2^37, 64*r with r of any magnitude up to 2^55}, of <= 60 (thorough <= 400) steps drawn state-dependently from a model: Set(idx) below Offset (within 200, or at any log-uniform distance down to 0) / at Offset / inside word 0 / the LAST missing bit of word 0 (forces compaction) / inside stored word k>0 (one of the first four, or any) / past the end: up to 8 (thorough 64) words, any log-uniform number of words up to 4096, ending around a capacity step (1024/2048/4096 words +-1), 1024..1064 words (beyond the initial capacity), rarely up to 2^17 (thorough 2^21) words / repeats; " +
+	Rule: "histories on one to three TailBitmaps that are alive at the same time (after every step the untouched ones are checked too), each from NewTailBitmap(o) (right after it: Offset%64==0, Offset <= o - not necessarily == o - and Get1/Get read 1 at the 4096 positions below o and at the sampled positions of the prefix), o in {0,64,128,64*r up to 2^40, 2^37, 64*r with r of any magnitude up to 2^55}, of <= 60 (thorough <= 400) steps drawn state-dependently from a model: Set(idx) below Offset (within 200, or at any log-uniform distance down to 0) / at Offset / inside word 0 / the LAST missing bit of word 0 (forces compaction) / inside stored word k>0 (one of the first four, or any) / past the end: up to 8 (thorough 64) words, any log-uniform number of words up to 4096, ending around a capacity step (1024/2048/4096 words +-1), 1024..1064 words (beyond the initial capacity), rarely up to 2^17 (thorough 2^21) words / repeats; " +
 		"macro steps FillWord(k, front-to-back | back-to-front | permuted), FillThrough(m words), m in {1,2,3,1023,1024,1025} or log-uniform in 4..1100 (crossing the 1024-word reclaim threshold, more often when a stored tail lies beyond the crossing point) and Pattern(first word, n <= 64 words: a keyed word-wise mix of untouched, complete, one-bit, all-but-one-bit, random, dense and run-shaped words); Compact; ReadAll. Model = o + set of explicitly set indexes. After EVERY elementary Set: Offset%64==0, Offset monotone, Offset <= first model zero, first stored word not all-ones, highest set index below Offset or inside the stored words; between the Sets of a macro step also Get1/Get at the bit just set +-1, Offset-1, Offset, the first zero and the last stored bit. After every step " +
-		"Get1/Get == model over [max(0,Offset-130), end of stored words) (all positions when <= 4096; else the first word, each word's first/last bit (beyond 2048 words: of the first/last 64 and 512 keyed words, plus a keyed bit), every stored set index with its neighbours at +-1 and +-64 (beyond 1024 of them the latest 256 and 512 keyed ones), boundaries and 512 keyed positions) and over the implicit prefix [0, Offset-130): 0,1,63,64.., around the initial o, fixed and power-of-two distances below Offset, absolute powers of two, keyed log-uniform distances below Offset, keyed log-uniform and uniform absolute positions, keyed positions and word boundaries of the region [o, Offset) that was set and then compacted away; ReadAll reads every position from Offset-8192 to the end (beyond 2048 words: of the first and last 1024 words). Compact changes no Get result. " +
+		"Get1/Get == model over [max(0,Offset-130), end of stored words) (all positions when <= 4096; else the first word, each word's first/last bit (beyond 2048 words: of the first/last 64 and 512 keyed words, plus a keyed bit), every stored set index with its neighbours at +-1 and +-64 (beyond 1024 of them the latest 256 and 512 keyed ones), boundaries and 512 keyed positions) and over the implicit prefix [0, Offset-130): 0,1,63,64.., around the initial o, fixed and power-of-two distances below Offset, absolute powers of two, keyed log-uniform distances below Offset, keyed log-uniform and uniform absolute positions, keyed positions and word boundaries of the region [o, Offset) that was set and then compacted away; ReadAll reads every position from Offset-8192 to the end (beyond 2048 words: of the first and last 1024 words). Compact changes no Get result. At the end of a history every instance with more than 62 stored words is read like ReadAll once more. No negative bit index is ever passed to Set/Get/Get1 (one in a case file is a harness fault, exit 2). " +
 		"Grid: three fixed reclaim-crossing histories, and histories of six threshold crossings each in which the crossing Compact drops n in {1,2,3,4,5,8,33,64,200} words at once and keeps a tail of l words, l = 0,1,2,.. 2^k-1,2^k,2^k+1 .. 4097 and two more sizes (thorough: eight) per octave chosen by the seed of the run, read completely before and after, from o in {0, 64, 2^31-, 2^32-, 2^37, 2^40+, 2^60+ ..}. " +
-		"One fixed history grows a stored tail beyond 2^31 bits (thorough: beyond 2^32) while word 0 stays incomplete, probed at its ends, around 2^31/2^32 and at every set index. " +
+		"One fixed history grows a stored tail beyond 2^31 bits (thorough: beyond 2^32) while word 0 stays incomplete, passing 2^18, 2^21 and 2^23 words on the way, probed at its ends, around 2^31/2^32 and at every set index. " +
 		"Non-trivial: the history advanced Offset at least once and afterwards a stored word (which holds a 0 bit) was probed. Distinct by hash of the history.",
 	Check:    check,
 	Classify: classify,
@@ -240,8 +240,13 @@ func check(c Case) *vk.Failure {
 		ms[i] = newModel(o)
 		ms[i].track = true
 		prevs[i] = tbs[i].Offset
-		if tbs[i].Offset != o {
-			return vk.Failf("initial-offset", "NewTailBitmap(%d).Offset = %d", o, tbs[i].Offset)
+		// what the statement fixes about a fresh bitmap (it does not say Offset == o): a multiple of 64 that lies at or
+		// below o - positions from o on are still 0 - and, further down, every position below o reads 1
+		if tbs[i].Offset%64 != 0 {
+			return vk.Failf("initial-offset", "NewTailBitmap(%d).Offset = %d is not a multiple of 64", o, tbs[i].Offset)
+		}
+		if tbs[i].Offset > o {
+			return vk.Failf("initial-offset", "NewTailBitmap(%d).Offset = %d lies beyond position %d, which is still 0", o, tbs[i].Offset, o)
 		}
 	}
 	tb, m, prevOffset := tbs[0], ms[0], prevs[0]
@@ -456,6 +461,9 @@ func check(c Case) *vk.Failure {
 			return fmt.Sprintf("%s: Get/Get1(%d) with Offset %d and %d words", step, cur, tb.Offset, len(tb.Words))
 		}, func() {
 			for i, j := range js {
+				if j < 0 { // bit indexes are non-negative: never read (positions derived from an Offset below 130 are clipped anyway)
+					continue
+				}
 				cur = j
 				g1, g := tb.Get1(j), tb.Get(j)
 				want := m.get(j)
@@ -503,6 +511,25 @@ func check(c Case) *vk.Failure {
 		return nil
 	}
 
+	// right after construction: every position below o reads 1 (all of the last 4096, the others as in every later window)
+	for i := range tbs {
+		use(i)
+		js := make([]int64, 0, 8192)
+		for _, j := range window(0) {
+			if j < m.o {
+				js = append(js, j)
+			}
+		}
+		for j := max(0, m.o-4096); j < m.o; j++ {
+			js = append(js, j)
+		}
+		if _, f := probe(fmt.Sprintf("right after NewTailBitmap(%d) [instance %d]: a position below the initial offset", m.o, i), js); f != nil {
+			f.Kind = "initial:" + f.Kind
+			return f
+		}
+	}
+	use(0)
+
 	for si, op := range c.Ops {
 		if op.I < 0 || op.I >= len(tbs) {
 			continue
@@ -548,6 +575,12 @@ func check(c Case) *vk.Failure {
 		idxs := expand(op, m)
 		stepMini := step + " (between the Sets of this macro step)"
 		for i, idx := range idxs {
+			if idx < 0 {
+				// bit indexes are non-negative; no generator or grid produces one. A fault of the harness (or of a hand-made
+				// case file), never a verdict about the library: the call is not made and the case ends here.
+				vk.Infra(fmt.Sprintf("C15 harness: %s asks for Set(%d), a negative bit index - not issued", step, idx))
+				return nil
+			}
 			if f := vk.TryF(func() string {
 				return fmt.Sprintf("%s: Set(%d) with Offset %d and %d words", step, idx, tb.Offset, len(tb.Words))
 			}, func() { tb.Set(idx) }); f != nil {
@@ -577,6 +610,15 @@ func check(c Case) *vk.Failure {
 		}
 		if f := others(si, step); f != nil {
 			return f
+		}
+	}
+	// at the end of the history every instance whose tail is too long for the per-step windows to be complete is read once in full
+	for i := range tbs {
+		use(i)
+		if len(tb.Words) > 62 {
+			if _, f := probe(fmt.Sprintf("after the last step (instance %d, read in full)", i), everything(len(c.Ops))); f != nil {
+				return f
+			}
 		}
 	}
 	return nil
@@ -931,7 +973,7 @@ func reclaimScenario(o int64, rounds [][2]int64, key uint64) Case {
 		}
 		c.Ops = append(c.Ops, Op{K: "fillthrough", A: 1023}, Op{K: "readall"},
 			Op{K: "fillword", A: w + 1023, B: int64(ri % 3), Key: vk.U64(z)}, Op{K: "readall"},
-			Op{K: "set", A: o}, Op{K: "set", A: t*64 - 64*1024 - 1}, Op{K: "compact"})
+			Op{K: "set", A: o}, Op{K: "set", A: max(0, t*64-64*1024-1)}, Op{K: "compact"})
 		if l > 0 {
 			c.Ops = append(c.Ops, Op{K: "set", A: (t+l/2)*64 + int64(z>>24%64)}, Op{K: "readall"})
 		}
@@ -975,7 +1017,10 @@ func modelSelfTest() {
 func TestLast(t *testing.T) {
 	vk.SetPhase("last")
 	// a stored tail longer than 2^31 bits (thorough: longer than 2^32 bits): word 0 stays incomplete, so Offset cannot advance
-	huge := Case{O: 64, Class: "scenario-huge-tail", ProbeKey: 4, Ops: []Op{{K: "set", A: 64 + 5}, {K: "set", A: 64 + 1<<31 + 77}, {K: "set", A: 64 + 1<<31 - 1}, {K: "set", A: 64 + 1<<31},
+	huge := Case{O: 64, Class: "scenario-huge-tail", ProbeKey: 4, Ops: []Op{{K: "set", A: 64 + 5},
+		// (on the way there the tail passes the sizes between the longest jump of the generator and 2^25 words: 2^18, 2^21, 2^23 words)
+		{K: "set", A: 64 + 1<<24 + 3}, {K: "set", A: 64 + 1<<27 - 1}, {K: "set", A: 64 + 1<<27}, {K: "set", A: 64 + 1<<29 + 64*5 + 31},
+		{K: "set", A: 64 + 1<<31 + 77}, {K: "set", A: 64 + 1<<31 - 1}, {K: "set", A: 64 + 1<<31},
 		{K: "set", A: 64 + 1<<30 + 3}, {K: "compact"}, {K: "set", A: 64 + 1<<31 + 64*3 + 9}, {K: "set", A: 64 + 6}}}
 	if vk.Pick(false, true) {
 		huge.Ops = append(huge.Ops, Op{K: "set", A: 64 + 1<<32 + 3}, Op{K: "set", A: 64 + 1<<32 - 1}, Op{K: "compact"}, Op{K: "set", A: 64 + 1<<32 + 64 + 63})
